@@ -431,3 +431,22 @@ Proof.
     destruct (c_ep c); [discriminate|].
     destruct (c_done c); cbn [app]; apply (IH (vm_add a (c_r c))); exact Hrest.
 Qed.
+
+(* ---------- model mutation score: the scripted stream (modes) pinned by concrete runs ---------- *)
+(* one sub-environment, two episodes: rewards 1,2,3 (info tags 7, 8, 5: the middle step loses a life in mode 3) then 4 *)
+Definition pin_script : script :=
+  [mk_episode 10 0 [mk_sstep 11 1 false false 7; mk_sstep 12 2 false false 8; mk_sstep 13 3 true false 5];
+   mk_episode 20 0 [mk_sstep 21 4 false true 9]].
+
+Example evaluate_scripted_modes :
+  (* no monitor: the loop's own accumulators; Monitor and VecMonitor: their entries; all agree on the true episodes *)
+  evaluate_scripted 8 0 2 [pin_script] = ([(6, 3); (4, 1)], [0%nat; 0%nat], true) /\
+  evaluate_scripted 8 1 2 [pin_script] = ([(6, 3); (4, 1)], [0%nat; 0%nat], true) /\
+  evaluate_scripted 8 2 2 [pin_script] = ([(6, 3); (4, 1)], [0%nat; 0%nat], true) /\
+  (* mode 3: the lost life in the middle of the first episode is reported as done but ends nothing *)
+  evaluate_scripted 8 3 2 [pin_script] = ([(6, 3); (4, 1)], [0%nat; 0%nat], true) /\
+  map (fun v => map c_done v) (stream 4 3 [pin_script] [senv_init pin_script]) = [[false]; [true]; [true]; [true]] /\
+  map (fun v => map c_done v) (stream 4 1 [pin_script] [senv_init pin_script]) = [[false]; [false]; [true]; [true]] /\
+  map (fun v => map c_ep v) (stream 3 1 [pin_script] [senv_init pin_script]) = [[None]; [None]; [Some (6, 3)]] /\
+  map (fun v => map c_ep v) (stream 3 0 [pin_script] [senv_init pin_script]) = [[None]; [None]; [None]].
+Proof. vm_compute. repeat split. Qed.
